@@ -902,6 +902,43 @@ fn update_msg(id: u16, n: u32, with_edns: bool, txt: bool) -> Message {
     m
 }
 
+/// a seeded, always-effective update of richer shape: a satisfied prerequisite, 1-3 additions
+/// under names that share suffixes (compression), mixed case, optional EDNS
+fn rich_update(rng: &mut Rng, n: u32) -> Message {
+    let mut m = Message::new(rng.next() as u16, MessageType::Query, OpCode::Update);
+    let zone = if rng.chance(1, 2) { origin() } else { Name::from_ascii("Example.COM.").unwrap() };
+    m.add_query(Query::new(zone, RecordType::SOA));
+    if rng.chance(1, 2) {
+        // "name is in use" (class ANY, type ANY, empty RDATA) for an existing name
+        let mut pre = Record::update0(Name::from_ascii("www.example.com.").unwrap(), 0, RecordType::ANY).into_record_of_rdata();
+        pre.dns_class = DNSClass::ANY;
+        m.add_answer(pre);
+    }
+    if rng.chance(1, 3) {
+        // "RRset does not exist" (class NONE) for a name that is not there
+        let mut pre = Record::update0(Name::from_ascii(format!("absent{n}.example.com.")).unwrap(), 0, RecordType::A).into_record_of_rdata();
+        pre.dns_class = DNSClass::NONE;
+        m.add_answer(pre);
+    }
+    let k = rng.range(1, 3);
+    for j in 0..k {
+        let label: String = (0..rng.range(1, 20)).map(|_| *rng.pick(&[b'a', b'B', b'c', b'0', b'-', b'x', b'Y']) as char).collect();
+        let name = Name::from_ascii(format!("L{label}.r{n}x{j}.example.com.")).unwrap();
+        let rec = match rng.below(3) {
+            0 => Record::from_rdata(name, rng.range(1, 86400) as u32, RData::A(A::new(10, rng.byte(), rng.byte(), rng.byte()))),
+            1 => Record::from_rdata(name, rng.range(1, 86400) as u32, RData::TXT(TXT::new(vec![format!("n={n} j={j}"), "x".repeat(rng.range(0, 40) as usize)]))),
+            _ => Record::from_rdata(name, rng.range(1, 86400) as u32, RData::NS(NS(Name::from_ascii(format!("ns{j}.example.com.")).unwrap()))),
+        };
+        m.add_authority(rec);
+    }
+    if rng.chance(1, 2) {
+        let mut e = Edns::new();
+        e.set_max_payload(*rng.pick(&[512u16, 1232, 4096]));
+        m.set_edns(e);
+    }
+    m
+}
+
 fn axfr_msg(id: u16) -> Message {
     let mut m = Message::new(id, MessageType::Query, OpCode::Query);
     m.add_query(Query::new(origin(), RecordType::AXFR));
@@ -1099,12 +1136,32 @@ pub fn run(o: &Opts, rec: &mut Recorder) {
         let buf = sign_plain(&m, signer, T0);
         bases.push((buf, signer.clone(), m));
     }
+    for _ in 0..o.n(3, 10) {
+        n += 1;
+        let m = rich_update(&mut g.rng, n);
+        let signer = if g.rng.chance(1, 2) { a.clone() } else { bq.clone() };
+        let t = if g.rng.chance(1, 4) { T0 + g.rng.range(0, 20) } else { T0 };
+        let buf = sign_plain(&m, &signer, t);
+        bases.push((buf, signer, m));
+    }
+    {
+        // AXFR asked with another spelling of the zone name and a non-zero flag octet 3
+        let mut m = axfr_msg(g.rng.next() as u16);
+        m.queries[0].name = Name::from_ascii("eXample.Com.").unwrap();
+        m.metadata.recursion_desired = true;
+        m.metadata.checking_disabled = true;
+        let buf = sign_plain(&m, &a, T0);
+        bases.push((buf, a.clone(), m));
+    }
     let offsets = |f: u64| -> Vec<i64> {
         let f = f as i64;
         vec![0, 1, -1, f - 1, -(f - 1), f, -f, f + 1, -(f + 1), 1_000_000, -1_000_000]
     };
-    for (buf, signer, _) in bases.clone() {
-        for (_, keys) in &keysets {
+    for (bi, (buf, signer, _)) in bases.clone().into_iter().enumerate() {
+        for (ki, (_, keys)) in keysets.iter().enumerate() {
+            if bi >= 4 && ki != 1 {
+                continue;
+            }
             for au in [true, false] {
                 for pol in ["signed", "all", "deny"] {
                     let offs = if keys.iter().any(|k| k.keyid == signer.keyid) && au && pol == "signed" { offsets(signer.fudge as u64) } else { vec![0, 1_000_000] };
